@@ -29,6 +29,8 @@ RecOK(r) ==
        \* create_or_load_database(): creates exactly when none exists; loads what is there otherwise
        /\ (~s.legacy /\ ~s.db2 => r.col.out = "ok" /\ r.col.created = TRUE /\ r.col.loaded = r.col.want)
        /\ (r.load.out = "ok" => r.col.out = "ok" /\ r.col.created = FALSE /\ r.col.loaded = r.load.loaded)
+       \* ... whatever schema the caller asks for (the request only matters when nothing exists yet)
+       /\ (r.load.out = "ok" /\ "col1" \in DOMAIN r => r.col1.out = "ok" /\ r.col1.created = FALSE /\ r.col1.loaded = r.load.loaded)
     \/ /\ Accepts300(r)
        /\ PrintT(<<"KF", l, "accepts-3.0.0">>)
 
